@@ -850,13 +850,18 @@ class Pile(Widget, WidgetContainerMixin, WidgetContainerListContentsMixin):
 
         if not combinelist:
             # nothing to draw: a blank canvas of the size asked for (fixed: of the size pack(()) reports)
-            return SolidCanvas(" ", size[0] if size else maxcol, size[1] if len(size) == 2 else sum(heights))
+            out = CompositeCanvas(SolidCanvas(" ", size[0] if size else maxcol, size[1] if len(size) == 2 else sum(heights)))
+            out.set_depends([w for w, _ in self.contents])
+            return out
 
         out = CanvasCombine(combinelist)
         if len(size) == 2 and size[1] != out.rows():
             # flow/fixed widgets rendered too large/small
             out = CompositeCanvas(out)
             out.pad_trim_top_bottom(0, size[1] - out.rows())
+        # an item without rows was asked for its size (rows()/pack()) but is not drawn: without an explicit
+        # dependency on every item the cached canvas would outlive a change of that item
+        out.set_depends([w for w, _ in self.contents])
         return out
 
     def get_cursor_coords(self, size: tuple[()] | tuple[int] | tuple[int, int]) -> tuple[int, int] | None:
